@@ -145,6 +145,9 @@ def scale_configs():
             for sc in (True, False):
                 for ddof in (1, 0):
                     cfgs.append((fn, (ce, sc, ddof)))
+    # the delta degrees of freedom need not be an integer ("ddof: float" in the signature)
+    cfgs += [("scale", (True, True, 1.5)), ("scale", (True, True, 0.5)), ("scale", (False, True, 1.5)),
+             ("standardize", (True, True, 0.5)), ("standardize", (True, True, 1.5))]
     # flags that are numpy booleans (e.g. the result of a comparison), each position x each value
     for fn, ddof in (("scale", 1), ("standardize", 0)):
         for ce in (numpy.True_, numpy.False_):
@@ -240,7 +243,7 @@ class ScaleOracle:
             about_mean = self.center or self.chosen == 1
             sd = N.sd_exact(g, self.ddof, about_mean=about_mean)
             rep(abs(sd - 1.0) <= self.tol_sd, "sd-not-one",
-                tag + ": %s of the result (ddof=%d) is %r (tolerance %.3g)" % ("sd" if about_mean else "rms", self.ddof, sd, self.tol_sd), got=g)
+                tag + ": %s of the result (ddof=%r) is %r (tolerance %.3g)" % ("sd" if about_mean else "rms", self.ddof, sd, self.tol_sd), got=g)
         return True
 
 
@@ -1039,9 +1042,19 @@ def drv_nested_formula(c, ctx, col):
                 terms.append((txt, [lambda v, o=orc, q=outer: q.expected(o.expected(v))]))
             else:
                 terms.append((txt, [lambda v, o=orc, g=g: g(o.expected(v))]))
+    # the same transforms reached through an attribute-style callee (module-qualified spelling, via the context)
+    for txt, cfg in (("ft.scale(x)", ("scale", None)), ("ft.center(x)", ("center", None)), ("ft.scale(x, ddof=0.5)", ("scale", (True, True, 0.5))),
+                     ("ft.patsy_compat.standardize(x)", ("standardize", None)), ("formulaic.transforms.center(x)", ("center", None)),
+                     ("fm.transforms.scale(x, center=False)", ("scale", (False, True, 1)))):
+        o = ScaleOracle(x, cfg)
+        o.chosen = 0
+        terms.append((txt, [lambda v, o=o: o.expected(v)]))
+        if txt in ("ft.center(x)", "ft.scale(x)"):
+            terms.append(("exp(%s)" % txt, [lambda v, o=o: math.exp(o.expected(v))]))
     if distinct >= 3:
         pr = N.PolyRef(x, 2)
         pcol = [lambda v, k=k: pr.evaluate(v)[0][k] for k in range(2)]
+        terms.append(("ft.poly(x, 2)", list(pcol)))
         terms.append(("np.abs(poly(x, 2))", [lambda v, f=f: abs(f(v)) for f in pcol]))
         terms.append(("log(poly(x, 2) + 10)", [lambda v, f=f: math.log(f(v) + 10) for f in pcol]))
         # multi-column arguments: every column gets its own statistics
@@ -1060,14 +1073,18 @@ def drv_nested_formula(c, ctx, col):
     ncols = sum(len(f) for _, f in terms)
     where = "nested stateful calls x=%r output=%s" % (x, output)
     rep = Reporter(col, where, {"x": x, "output": output, "formula": formula,
-                                "repro": "mm = model_matrix(%r, pandas.DataFrame({'x': %r}), output=%r); mm.model_spec.get_model_matrix(pandas.DataFrame({'x': %r}))"
-                                         % (formula, x, output, NEST_NEW[0])})
+                                "repro": "import formulaic, formulaic.transforms as ft; ctx = {'ft': ft, 'formulaic': formulaic, 'fm': formulaic}; "
+                                         "mm = model_matrix(%r, pandas.DataFrame({'x': %r}), output=%r, context=ctx); "
+                                         "mm.model_spec.get_model_matrix(pandas.DataFrame({'x': %r}), context=ctx)" % (formula, x, output, NEST_NEW[0])})
     col.interesting()
     col.sample({"x": x, "output": output, "terms": len(terms)})
     col.state((tuple(x), output))
     df = pandas.DataFrame({"x": numpy.array(x, dtype=float)})
+    import formulaic
+    import formulaic.transforms
+    context = {"ft": formulaic.transforms, "formulaic": formulaic, "fm": formulaic}
     try:
-        mm = model_matrix(formula, df, output=output)
+        mm = model_matrix(formula, df, output=output, context=context)
         a = dense(mm)
     except Exception as e:  # noqa
         rep(False, "raises", "model_matrix raised %s: %s" % (type(e).__name__, str(e)[:200]))
@@ -1088,7 +1105,7 @@ def drv_nested_formula(c, ctx, col):
     compare(a, x, "fit")
     for new in NEST_NEW:
         try:
-            b = dense(mm.model_spec.get_model_matrix(pandas.DataFrame({"x": numpy.array(new, dtype=float)})))
+            b = dense(mm.model_spec.get_model_matrix(pandas.DataFrame({"x": numpy.array(new, dtype=float)}), context=context))
         except Exception as e:  # noqa
             rep(False, "raises", "model_spec.get_model_matrix(%r) raised %s: %s" % (new, type(e).__name__, str(e)[:200]))
             return
@@ -1183,7 +1200,9 @@ def subchecks(tier, seed):
                     "followups": "3 new matrices with the recorded state"}),
         Sub("nested-formula", drv_nested_formula, {"L": 3 if quick else 4, "outputs": outs}, shard_depth=3,
             bounds={"alphabet": [fmt(a) for a in NEST_ALPHA], "length": "2..%d" % (3 if quick else 4), "inner": [cfg_expr(c_) for c_ in NEST_INNER] + ["poly(x, 2)"],
-                    "wrappers": [w[1] for w in NEST_WRAPPERS], "multi_column": ["scale(poly(x, 2))", "standardize(poly(x, 2))", "scale(poly(x, 2, raw=True), ddof=0)", "center(poly(x, 2, raw=True))"],
+                    "wrappers": [w[1] for w in NEST_WRAPPERS], "attribute_style_callees": ["ft.scale(x)", "ft.center(x)", "ft.scale(x, ddof=0.5)", "ft.patsy_compat.standardize(x)", "formulaic.transforms.center(x)",
+                                                "fm.transforms.scale(x, center=False)", "exp(ft.center(x))", "exp(ft.scale(x))", "ft.poly(x, 2)"],
+                    "multi_column": ["scale(poly(x, 2))", "standardize(poly(x, 2))", "scale(poly(x, 2, raw=True), ddof=0)", "center(poly(x, 2, raw=True))"],
                     "outputs": outs, "followup_frames": NEST_NEW}),
         Sub("name-history", drv_name_history, {"D": 2 if quick else 3}, shard_depth=3,
             bounds={"names": HIST_NAMES, "events": HIST_EVENTS, "history_length": "2" if quick else "2..3",
